@@ -117,18 +117,32 @@ def extend(g, api):
             r'let old = mem::replace\( &mut self\.spaces\[SpaceId::Data\] \.crypto \.as_mut\(\) \.unwrap\(\) \.packet, mem::replace\(self\.next_crypto\.as_mut\(\)\.unwrap\(\), new\), \);',
             r'self\.spaces\[SpaceId::Data\]\.sent_with_keys = 0;',
             r'self\.prev_crypto = Some\(PrevCrypto \{ crypto: old, end_packet, update_unacked: remote, \}\);',
-            r'self\.key_phase = !self\.key_phase; \}?$',
+            r'self\.key_phase = !self\.key_phase; self\.key_phase_first_pn = Some\(self\.spaces\[SpaceId::Data\]\.next_packet_number\); \}?$',
         ], 'Connection::update_keys')
     g.nat('updateKeysShapeChecked', f'{CONN}::Connection::update_keys', update_keys_shape)
 
+    FORCE = (r'^\{? ?if !self\.state\.is_established\(\) \{ (?:debug!\([^;]*\); )?return; \} '
+             r'if self\.spaces\[SpaceId::Handshake\]\.crypto\.is_some\(\) \{ (?:debug!\([^;]*\); )?return; \} '
+             r'if self\.prev_crypto\.is_some\(\) \{ (?:debug!\([^;]*\); )?return; \} '
+             r'if let Some\(first\) = self\.key_phase_first_pn \{ let acked = self\.spaces\[SpaceId::Data\]\.largest_acked_packet; '
+             r'if acked\.is_none_or\(\|pn\| ([^)]*)\) \{ (?:debug!\([^;]*\); )?self\.ping\(\); return; \} \} '
+             r'self\.update_keys\(None, false\); \}?$')
+
     def force_shape():
         b = ws(sc(fn_body(read(CONN), 'force_key_update')))
-        return need(b, [
-            r'^\{? ?if !self\.state\.is_established\(\) \{ (?:debug!\([^;]*\); )?return; \}',
-            r'if self\.prev_crypto\.is_some\(\) \{ (?:debug!\([^;]*\); )?return; \}',
-            r'self\.update_keys\(None, false\); \}?$',
-        ], 'Connection::force_key_update')
-    g.nat('forceKeyUpdateShapeChecked', f'{CONN}::Connection::force_key_update (refused unless established and no previous keys are retained)', force_shape)
+        if not re.search(FORCE, b):
+            raise TE('Connection::force_key_update: guard list changed')
+        return 1
+    g.nat('forceKeyUpdateShapeChecked', f'{CONN}::Connection::force_key_update (the complete guard list: established, handshake confirmed = Handshake keys discarded, no previous keys retained, a packet of the current key phase acknowledged once a key update has taken place; then update_keys(None, false))', force_shape)
+
+    def acked_below():
+        b = ws(sc(fn_body(read(CONN), 'force_key_update')))
+        m = re.search(FORCE, b)
+        if not m:
+            raise TE('Connection::force_key_update: acknowledgement guard not recognised')
+        return tx(m.group(1), {'pn': 'acked_pn', 'first': 'first_pn'})
+    g.fn('kuAckedBelowPhase', '(acked_pn first_pn : Nat) : Bool',
+         f'{CONN}::Connection::force_key_update refused if key_phase_first_pn is Some(first_pn) and largest_acked_packet is None or Some(acked_pn) with this', acked_below)
 
     def discard_timer_shape():
         b = ws(sc(fn_body(read(CONN), 'set_key_discard_timer')))
